@@ -68,9 +68,20 @@ def session(args):
                     out = eng.read_until(lambda l: l.startswith("bestmove"), 120)
                 else:
                     out = eng.go(f"position fen {fen}", go, timeout=120, stop_after=stop_after)
-            except (uci.EngineDied, TimeoutError) as e:
+            except uci.EngineDied as e:
                 recs.append({"fen": fen, "go": go, "opts": opts, "error": str(e)[:400], "transcript": eng.transcript[-40:]})
                 return recs
+            except TimeoutError as e:
+                # a limited search that is merely slow (reduced strength / MaxNPS / many threads on a loaded machine) is not a C03 matter
+                # (C05/C06 judge answering in time): stop it, audit what it printed; only an engine that does not answer `stop` is reported
+                out = list(getattr(e, "lines", []))
+                try:
+                    eng.send("stop"); out += eng.read_until(lambda l: l.startswith("bestmove"), 60)
+                except (uci.EngineDied, TimeoutError) as e2:
+                    recs.append({"fen": fen, "go": go, "opts": opts, "error": "no answer to stop after a search that ran over 120 s: " + str(e2)[:300], "transcript": eng.transcript[-40:]})
+                    return recs
+                recs.append({"fen": fen, "go": go, "opts": opts, "out": out, "stopped_after_120s": True})
+                continue
             recs.append({"fen": fen, "go": go, "opts": opts, "out": out})
         rc = eng.quit()
         if rc != 0:
